@@ -20,12 +20,11 @@ ID = "C13"
 PROPS = ["props/C13.v"]
 EXTRACTS = ["C13"]
 THEOREMS = [
-    "C13_patch_py_shape", "C13_generated_lists_ok", "C13_listed_are_patched", "C13_new_values_fresh", "C13_mutable_contents_partial",
-    "C13_setup_py_partial", "C13_setup_py_all_programs_partial", "C13_process_survives_os_exit",
-    "C13_early_return_restores", "C13_pyproject_partial", "C13_project_files_untouched_partial",
-    "C13_pyproject_argv_restored", "C13_patch_none_refuted", "C13_delete_created_attr_refuted",
-    "C13_threads_refuted", "C13_sys_path_refuted", "C13_host_module_purged_refuted",
-    "C13_capture_warnings_refuted", "C13_real_fs_ops_refuted",
+    "C13_patch_py_shape", "C13_generated_lists_ok", "C13_listed_are_patched", "C13_new_values_fresh",
+    "C13_setup_py_partial", "C13_setup_py_all_programs_partial", "C13_capture_warnings_undone",
+    "C13_process_survives_os_exit", "C13_early_return_restores", "C13_pyproject_partial", "C13_pyproject_argv_restored",
+    "C13_mutable_contents_partial", "C13_project_files_untouched_partial",
+    "C13_threads_refuted", "C13_host_module_purged_refuted", "C13_real_fs_ops_refuted",
 ]
 RULE = ("(a) random op sequences (begin_patch / end_patch / patch enter / patch exit, direct set/del, module "
         "(un)registration; None values, missing attributes, by-name targets, nested and non-LIFO exits) run on scratch "
@@ -57,14 +56,16 @@ ASSUMPTIONS = [
     "real thread interleavings are represented by an explicit non-LIFO schedule of two patch() managers",
 ]
 LEVEL_TEXT = ("Theorems over a Gallina model of patch.py and of the setup.py / PEP 517 analysers (process state = attribute map with "
-              "absent/None/identity values, cwd, sys.path, sys.meta_path, sys.modules): for every effect sequence and each of the four "
-              "endings the listed state is restored under stated guards (C13_setup_py_partial, ..._all_programs_partial, survival of "
-              "os._exit, early returns, PEP 517 path, virtual file operations), with obligations on the patch lists and finally layout "
-              "regenerated from /repo on every run, sys.argv restored on the PEP 517 path (repo commit 147f414), and seven refuted clauses with witnesses that replay on the real code.")
-LEVEL_NOTE = ("Partial: the unguarded statement is false of the unchanged code (None-valued attributes are deleted; deleting an "
-              "attribute the analyser created aborts the restores; sys.path inserts, captureWarnings, PEP 517 backend module / os._exit, real os.mkdir/"
-              "os.remove relative to the cwd, non-LIFO interleaving, eviction of host modules under the fake root).  Scripts are effect "
-              "sequences, not Python programs; that generated scripts stay inside the alphabet is established by T2 only.")
+              "absent/None/identity values and object contents, cwd, sys.path, sys.meta_path, sys.modules): for every effect sequence "
+              "(in-place edits included) and each of the four endings the listed state is restored (C13_setup_py_partial; for ANY state "
+              "and script every substituted attribute and sys.path: ..._all_programs_partial), the process survives os._exit, early "
+              "returns, captureWarnings undone, PEP 517 path incl. sys.argv, object contents, virtual file operations; obligations on the "
+              "patch lists, their new values and the finally layout are regenerated from /repo on every run; three refuted clauses with "
+              "witnesses that replay on the real code.")
+LEVEL_NOTE = ("Partial: the unguarded statement is still false of the code (a host module whose file lies under the fake root is evicted; "
+              "real os.mkdir/os.remove relative to the cwd; non-LIFO interleaving of two analyses; PEP 517: in-tree backend module stays "
+              "loaded, os._exit not intercepted).  Scripts are effect sequences, not Python programs; that generated scripts stay inside "
+              "the alphabet is established by T2 only.")
 TECHNIQUE = "Rocq proof over a Gallina state-machine model (per-key frame lemmas, LIFO restore lemma, program invariants) + T1 generated patch lists + extraction-based differential correspondence in a worker process"
 
 WORKER = str(Path(__file__).resolve().parent / "c13_worker.py")
@@ -943,20 +944,20 @@ def correspondence(ctx: Ctx) -> None:
 def in_guard(case: Dict[str, Any]) -> bool:
     """Cases outside the known, listed defects (the guards of the _partial theorems, read off the case)."""
     init = case.get("init", {})
-    if init.get("none") or init.get("host_mods") and any(k != "P" for _, k in init["host_mods"]):
+    if init.get("host_mods") and any(k != "P" for _, k in init["host_mods"]):
         return False
     if init.get("cython") in ("none", "noattr"):
         return False
     if case["kind"] == "pyproject":
         return False
+    if any(tuple(k) in [tuple(x) for x in MISC_KEYS] for k in init.get("none", []) + init.get("absent", [])):
+        return False
     eff = effective_program(case)
-    created = {("os", "getcwdu"), ("imp", "load_source")} - {tuple(k) for k in init.get("present", [])}
-    created |= {tuple(k) for k in init.get("absent", [])}
     for o in eff["ops"]:
-        if o[0] == "S":
-            return False
-        if o[0] in ("W", "D") and ((o[1], o[2]) in created or (o[1], o[2]) in (("os", "c13_extra"), ("sys", "c13_extra"), ("os.path", "abspath"))
+        if o[0] in ("W", "D") and ((o[1], o[2]) in (("os", "c13_extra"), ("sys", "c13_extra"), ("os.path", "abspath"))
                                    or (o[1], o[2]) in [tuple(k) for k in MISC_KEYS]):
+            return False
+        if o[0] == "W" and o[3][0] == "C" and (o[3][1], o[3][2]) in [tuple(k) for k in MISC_KEYS]:
             return False
         if o[0] == "R" and o[1].startswith("c13host"):
             return False
@@ -979,9 +980,7 @@ def oracle(case: Dict[str, Any], rec: Dict[str, Any], strict: bool = False) -> O
     init_vals = [toks[3 + 3 * i] for i in range(nk)]
     parts = rec["final"].split(" | ")
     fin_vals = parts[0].split()
-    skip = {("warnings", "showwarning"), ("logging", "_warnings_showwarning")} if not (strict or case.get("init", {}).get("captured")) else set()
-    if strict:
-        skip = {("logging", "_warnings_showwarning")}
+    skip: set = set()
     for k, a, b in zip(keys, init_vals, fin_vals):
         if k in skip:
             continue
